@@ -199,6 +199,7 @@ func postStartReach(c *Ctx, roots []*ssa.Function, st *starterInfo, edgeOK func(
 // ---- main -----------------------------------------------------------------------------
 
 func runC07(c *Ctx, r *Report) {
+	importFoundation(c, r, "C07", "priv-bounded")
 	r.Rule("C07/waitgroup-add", "every sync.WaitGroup counter is raised by the spawning side, before the goroutine it accounts for exists", 1)
 	checkWaitGroupAddBeforeGo(c, r, "C07/waitgroup-add")
 	importFoundation(c, r, "C07", "queue")
